@@ -2545,6 +2545,16 @@ impl BytecodeVM {
                 Ok(OpResult::Continue)
             }
 
+            Op::DeclareAliasVar { name, obj, mutable } => {
+                let name = self
+                    .get_string_constant(name)
+                    .ok_or_else(|| JsError::internal_error("Invalid variable name constant"))?;
+                if let JsValue::Object(target) = self.get_reg(obj).clone() {
+                    interp.env_define_alias(name, target, mutable);
+                }
+                Ok(OpResult::Continue)
+            }
+
             Op::GetGlobal { dst, name } => {
                 let name = self
                     .get_string_constant(name)
